@@ -36,6 +36,12 @@ def gen_cases(seed, tier, n):
         if i % 7 == 3:
             import random as _r
             tracegen.add_second_process(c, _r.Random(seed * 15485863 + i))     # two processes, same thread id
+        if i % 6 == 5:
+            import random as _r
+            import pC03
+            pC03._mixed_last_group(c, _r.Random(seed * 104729 + i))          # the last (pid, tid) group mixes rows with and without a stream
+        if i % 9 == 4:
+            tracegen.huge_thread_ids(c)                                      # pthread-style thread ids far beyond 2**31
         out.append(c)
     return out
 
@@ -244,8 +250,12 @@ def compare(case, impl, model):
         disc += [f"rank {r}: " + b for b in local_equations(rows, table)[:3]]
         if [list(x) for x in m] != got and not _unspecified_attachment(rows):
             mm = {x[0]: list(x[1:]) for x in m}
-            diff = [(k, table.get(k), mm.get(k)) for k in sorted(set(table) | set(mm)) if table.get(k) != mm.get(k)][:3]
-            disc.append(f"rank {r}: stack columns differ (idx, impl, model; columns {COLS}): {diff}")
+            # rows of a (pid, tid) group that mixes rows with and without a stream are neither a host thread nor a stream: the property
+            # says nothing about them (the code builds a stack of its own for such a group)
+            mixed = _mixed_ids(rows)
+            diff = [(k, table.get(k), mm.get(k)) for k in sorted(set(table) | set(mm)) if table.get(k) != mm.get(k) and k not in mixed][:3]
+            if diff:
+                disc.append(f"rank {r}: stack columns differ (idx, impl, model; columns {COLS}): {diff}")
     return disc[:8]
 
 
@@ -260,6 +270,13 @@ def _tid0_rows(rows):
     return {r["idx"] for r in rows if r["tid"] == 0 and r["stream"] < 0}
 
 
+def _mixed_ids(rows):
+    grp = {}
+    for x in rows:
+        grp.setdefault((x["pid"], x["tid"]), set()).add(x["stream"] < 0)
+    return {x["idx"] for x in rows if len(grp[(x["pid"], x["tid"])]) == 2}
+
+
 def classify(case, impl, model, disc):
     """Known finding: a host-side thread whose tid is 0 (the records of 'Context Sync') gets the root id -abs(tid) = 0, which
     is also the id of the first event; matched only if every differing row lies on such a thread or is event 0 itself."""
@@ -272,7 +289,7 @@ def classify(case, impl, model, disc):
             return None
         got = {x[0]: x[1:] for x in o[r]}
         mm = {x[0]: list(x[1:]) for x in m}
-        diff = {k for k in set(got) | set(mm) if got.get(k) != mm.get(k)} if not _unspecified_attachment(rows) else set()
+        diff = ({k for k in set(got) | set(mm) if got.get(k) != mm.get(k)} - _mixed_ids(rows)) if not _unspecified_attachment(rows) else set()
         if diff and not t0:
             return None
         if not diff <= (t0 | {0}):
